@@ -49,6 +49,16 @@ def make_job(method, noise):
                            'torchsde._core.base_sde.ForwardSDE._return_zero')
         rep.bounded.append({'what': tag, 'bound': f'dimension-bounded B={B}, d={d}, m={m}'})
         S = X.setup(E, noise, st, B, d, m, X.levy_for(method), eta_limit=2)
+        # the same step with autograd recording off (inference): it may take other code paths, but must not write into user-owned tensors
+        from pyvc.tensor import GradMode
+        gm = GradMode(False)
+        gm.__pyvc_enter__(S.cx)
+        try:
+            X.run_step(S, method)
+        except PyExc:
+            pass
+        finally:
+            gm.__pyvc_exit__(S.cx)
         try:
             _, y1, ex1 = X.run_step(S, method)
         except PyExc as e:
